@@ -98,8 +98,15 @@ impl Client {
         {
             Ok(record) => {
                 debug!("Got scratchpad for {scratch_key:?}");
-                try_deserialize_record::<Scratchpad>(&record)
-                    .map_err(|_| VaultError::CouldNotDeserializeVaultScratchPad(scratch_address))?
+                let pad = try_deserialize_record::<Scratchpad>(&record)
+                    .map_err(|_| VaultError::CouldNotDeserializeVaultScratchPad(scratch_address))?;
+                if *pad.address() != scratch_address || !pad.is_valid() {
+                    error!("Got a scratchpad for {scratch_key:?} that is not owned and signed by the requested key");
+                    return Err(VaultError::CouldNotDeserializeVaultScratchPad(
+                        scratch_address,
+                    ));
+                }
+                pad
             }
             Err(NetworkError::GetRecordError(GetRecordError::SplitRecord { result_map })) => {
                 debug!("Got multiple scratchpads for {scratch_key:?}");
@@ -108,6 +115,9 @@ impl Client {
                     .map(|(record, _)| try_deserialize_record::<Scratchpad>(record))
                     .collect::<Result<Vec<_>, _>>()
                     .map_err(|_| VaultError::CouldNotDeserializeVaultScratchPad(scratch_address))?;
+
+                // discard versions that are not owned and validly signed by the requested key
+                pads.retain(|pad| *pad.address() == scratch_address && pad.is_valid());
 
                 // take the latest versions
                 pads.sort_by_key(|s| s.count());
